@@ -123,6 +123,67 @@ def record_pivots(A, n, elt):
 def extra_coverage():
     return {"pivot_distribution": PIVOT_STATS}
 
+# ---- recorded finding `cplx-sqmod-range` (findings/C01-complex-extreme-scale.md): Complex<f64> modulus and division square
+# the components without scaling.  The key is decided from the INPUT (entries and the exact pivots they lead to), never from
+# the fact of failing.
+MIN_NORMAL = Fraction(2) ** -1022
+MAX_F64 = Fraction(2) ** 1024
+
+def sqmod_out_of_range(re, im):
+    s = Fraction(re) ** 2 + Fraction(im) ** 2
+    return s != 0 and (s < MIN_NORMAL or s >= MAX_F64)
+
+def cplx_exact_pivots(A, n):
+    """pivots of exact elimination with partial pivoting by true modulus (what backsolve divides by)"""
+    def mul(a, b): return (a[0]*b[0] - a[1]*b[1], a[0]*b[1] + a[1]*b[0])
+    def sub(a, b): return (a[0]-b[0], a[1]-b[1])
+    def div(a, b):
+        d = b[0]*b[0] + b[1]*b[1]
+        return ((a[0]*b[0] + a[1]*b[1]) / d, (a[1]*b[0] - a[0]*b[1]) / d)
+    M = [[(Fraction(A[i*n+j].real), Fraction(A[i*n+j].imag)) for j in range(n)] for i in range(n)]
+    piv = []
+    for k in range(n):
+        p = max(range(k, n), key=lambda i: M[i][k][0]**2 + M[i][k][1]**2)
+        if M[p][k] == (0, 0): continue
+        M[p], M[k] = M[k], M[p]
+        piv.append(M[k][k])
+        for i in range(k + 1, n):
+            f = div(M[i][k], M[k][k])
+            if f != (0, 0):
+                for j in range(k, n): M[i][j] = sub(M[i][j], mul(f, M[k][j]))
+    return piv
+
+def finding_key(case, desc, items):
+    """`cplx-sqmod-range` iff the element type is Complex<f64> and some entry of A or b, or some exact pivot, has re^2 + im^2
+    outside the normal f64 range (underflows to 0/subnormal, or overflows)."""
+    m = case.meta
+    if case.elt != 'cplx' or m.get("bad") or "A" not in m: return None
+    A, b, n = m["A"], m["b"], m["n"]
+    try:
+        if any(sqmod_out_of_range(complex(z).real, complex(z).imag) for z in list(A) + list(b)): return "cplx-sqmod-range"
+        if any(sqmod_out_of_range(p[0], p[1]) for p in cplx_exact_pivots([complex(z) for z in A], n)): return "cplx-sqmod-range"
+    except (OverflowError, ValueError):      # non-finite input entries: not this class
+        return None
+    return None
+
+def gen_extreme_cplx(rng, n):
+    """well-conditioned Complex<f64> systems whose entries have |z| in 1e-200..1e-155 or 1e155..1e200:
+    scaled diagonal / strictly diagonally dominant / row-permuted dominant; b = A * x0 for a small x0"""
+    e = rng.range(155, 200)
+    s = 10.0 ** (-e if rng.chance(1, 2) else e)
+    pat = rng.below(3)
+    A = [0j] * (n * n)
+    perm = list(range(n)) if pat < 2 else rng.shuffle(range(n))
+    for i in range(n):
+        for j in range(n):
+            if j == perm[i]:
+                A[i*n+j] = complex(rng.range(4 * n, 6 * n) * (1 if rng.chance(1, 2) else -1), rng.range(-3, 3)) * s
+            elif pat >= 1 and rng.chance(1, 2):
+                A[i*n+j] = complex(rng.range(-2, 2), rng.range(-2, 2)) * s
+    x0 = [complex(rng.range(-3, 3), rng.range(-3, 3)) for _ in range(n)]
+    b = [sum((A[i*n+j] * x0[j] for j in range(n)), 0j) for i in range(n)]
+    return A, b
+
 def nonsingular(A, n):
     try:
         return det_exact([Fraction(x) for x in A], n) != 0
@@ -172,6 +233,12 @@ def generate(rng, tier):
                     A = [complex(x, fval(g, sc) if g.chance(1, 2) else 0.0) for x in A]
                     b = [complex(x, fval(g, sc)) for x in b]
                 cases.append(mk(elt, n, A, b, elt + "-" + fam, n >= 2))
+    # adversarial: Complex<f64> at magnitudes where re^2+im^2 leaves the normal range (recorded finding cplx-sqmod-range)
+    g = rng.fork("cplx-extreme")
+    for t in range(8 if tier == "quick" else 60):
+        n = 1 + (t % 4)
+        A, b = gen_extreme_cplx(g, n)
+        cases.append(mk('cplx', n, A, b, "cplx-extreme-scale", True))
     # mismatched / non-square / empty systems: must be rejected (panic), never answered
     g = rng.fork("bad")
     for r in range(0, 4):
